@@ -23,6 +23,7 @@ fn table() -> Vec<(&'static str, RunFn, ReplayFn, &'static str)> {
         ("C17", vh::c17::run, vh::c17::replay, vh::c17::RULE),
         ("C18", vh::c18::run, vh::c18::replay, vh::c18::RULE),
         ("C19", vh::c19::run, vh::c19::replay, vh::c19::RULE),
+        ("C20", vh::c20::run, vh::c20::replay, vh::c20::RULE),
     ]
 }
 
